@@ -99,34 +99,27 @@ class ParserState:
         children: list[Pair] = []
         some = False
 
+        def attempt(rule: Rule) -> bool:
+            self.checkpoint()
+            matched = rule.parse(self, children)
+            if matched:
+                pairs.extend(children)
+                self.ok()
+            else:
+                self.restore()
+            children.clear()
+            return matched
+
+        # As pest does it: WHITESPACE* ~ (COMMENT ~ WHITESPACE*)*
         with self.suppress_failures():
             while True:
-                matched = False
+                while whitespace_rule and attempt(whitespace_rule):
+                    some = True
 
-                if whitespace_rule:
-                    self.checkpoint()
-                    if whitespace_rule.parse(self, children):
-                        matched = True
-                        some = True
-                        pairs.extend(children)
-                        self.ok()
-                    else:
-                        self.restore()
-                    children.clear()
-
-                if comment_rule:
-                    self.checkpoint()
-                    if comment_rule.parse(self, children):
-                        matched = True
-                        some = True
-                        pairs.extend(children)
-                        self.ok()
-                    else:
-                        self.restore()
-                    children.clear()
-
-                if not matched:
+                if not (comment_rule and attempt(comment_rule)):
                     break
+
+                some = True
 
         return some
 
